@@ -3,6 +3,7 @@ mod disk;
 mod exec;
 mod gen;
 mod judge;
+mod mirror;
 mod model;
 mod obs;
 mod plan;
@@ -43,7 +44,27 @@ impl log::Log for NullLogger {
 static NULL_LOGGER: NullLogger = NullLogger;
 
 fn main() {
-    let args: Vec<String> = std::env::args().collect();
+    let code = real_main();
+    mirror::cleanup_self();
+    std::process::exit(code);
+}
+
+fn real_main() -> i32 {
+    let mut args: Vec<String> = std::env::args().collect();
+    // plans run in a private working directory (mirror.rs): resolve relative paths first
+    mirror::absolutize_env(&["VERIF_DIR", "VERIF_EVIDENCE_DIR", "VERIF_WORKER_EXE", "VERIF_MIRROR_BASE"]);
+    let path_arg = match args.get(1).map(String::as_str) {
+        Some("worker") => Some(7),
+        Some("journal") => Some(6),
+        Some("exec-plan" | "replay") => Some(2),
+        _ => None,
+    };
+    if let Some(k) = path_arg {
+        if let Some(a) = args.get(k).cloned() {
+            args[k] = mirror::absolutize(&a);
+        }
+    }
+    let _ = mirror::root();
     obs::install_quiet_panic_hook();
     let _ = log::set_logger(&NULL_LOGGER);
     log::set_max_level(log::LevelFilter::Off);
@@ -54,7 +75,10 @@ fn main() {
                 eprintln!("property {prop} is not claimed (see MANIFEST.json not_applicable)");
                 std::process::exit(2);
             }
-            std::process::exit(batch::check(prop, tier).exit);
+            mirror::sweep_stale();
+            let code = batch::check(prop, tier).exit;
+            mirror::sweep_stale();
+            return code;
         }
         Some("worker") => {
             let prop = &args[2];
@@ -93,12 +117,17 @@ fn main() {
         }
         Some("replay") => {
             let Some(f) = args.get(2) else { usage() };
-            std::process::exit(batch::replay_file(Path::new(f)));
+            return batch::replay_file(Path::new(f));
         }
         Some("selftest") => match args.get(2).map(String::as_str) {
             Some("determinism") => {
                 let n = args.get(3).and_then(|s| s.parse().ok()).unwrap_or(2_000);
-                std::process::exit(selftest::determinism(n));
+                return selftest::determinism(n);
+            }
+            Some("chunk") => {
+                let from: u64 = args[4].parse().unwrap();
+                let to: u64 = args[5].parse().unwrap();
+                return selftest::chunk(&args[3], from, to);
             }
             Some("trace") => {
                 // helper of the determinism self-test: print the event-log hashes of a range
@@ -152,4 +181,5 @@ fn main() {
         }
         _ => usage(),
     }
+    0
 }
